@@ -5,6 +5,7 @@ package main
 // Every ABCI call is wrapped in recover: a panic is an observation.
 
 import (
+	evmoscontracts "github.com/evmos/evmos/v19/contracts"
 	"crypto/sha256"
 	"encoding/json"
 	"fmt"
@@ -508,6 +509,41 @@ func (c *Chain) DeployNFT(from Acct) (common.Address, error) {
 	addr := ethcrypto.CreateAddress(from.Hex(), nonce)
 	c.NftAddr = addr
 	return addr, nil
+}
+
+// DeployAndRegisterERC20 deploys evmos' ERC20MinterBurnerDecimals contract (the deployer holds the minter role) and
+// registers it as a token pair the way the governance proposal does (x/erc20 keeper RegisterERC20)
+func (c *Chain) DeployAndRegisterERC20(from Acct) (common.Address, string, error) {
+	ctx := c.Ctx()
+	abi := evmoscontracts.ERC20MinterBurnerDecimalsContract.ABI
+	ctor, err := abi.Pack("", "Pair Token", "PAIR", uint8(6))
+	if err != nil {
+		return common.Address{}, "", err
+	}
+	data := append(append([]byte{}, evmoscontracts.ERC20MinterBurnerDecimalsContract.Bin...), ctor...)
+	nonce := c.App.EvmKeeper.GetNonce(ctx, from.Hex())
+	if _, err := c.App.EvmKeeper.CallEVMWithData(ctx, from.Hex(), nil, data, true); err != nil {
+		return common.Address{}, "", err
+	}
+	addr := ethcrypto.CreateAddress(from.Hex(), nonce)
+	pair, err := c.App.Erc20Keeper.RegisterERC20(ctx, addr)
+	if err != nil {
+		return common.Address{}, "", err
+	}
+	return addr, pair.Denom, nil
+}
+
+func (c *Chain) MintERC20(minter Acct, contract common.Address, to common.Address, amount *big.Int) error {
+	_, err := c.App.EvmKeeper.CallEVM(c.Ctx(), evmoscontracts.ERC20MinterBurnerDecimalsContract.ABI, minter.Hex(), contract, true, "mint", to, amount)
+	return err
+}
+
+func (c *Chain) ERC20Balance(contract common.Address, who common.Address) *big.Int {
+	b := c.App.Erc20Keeper.BalanceOf(c.Ctx(), evmoscontracts.ERC20MinterBurnerDecimalsContract.ABI, contract, who)
+	if b == nil {
+		return big.NewInt(0)
+	}
+	return b
 }
 
 func (c *Chain) MintNFT(from Acct, contract common.Address, to common.Address) error {
